@@ -1366,7 +1366,15 @@ func (a *Agent) addCandidate(ctx context.Context, cand Candidate, candidateConn 
 		return err
 	}
 
-	return a.loop.Run(ctx, func(context.Context) {
+	var addErr error
+	if err := a.loop.Run(ctx, func(context.Context) {
+		// Run's select may still hand over the task after ctx was canceled (e.g. by a
+		// Restart that ran in between): a candidate of the canceled gathering must not be
+		// added to the new generation. The caller releases the connection on error.
+		if addErr = ctx.Err(); addErr != nil {
+			return
+		}
+
 		if a.connectionState == ConnectionStateFailed {
 			// Failed released every candidate and pair; only Restart starts a new session.
 			a.log.Debugf("Ignore candidate gathered after failure: %s", cand)
@@ -1412,7 +1420,11 @@ func (a *Agent) addCandidate(ctx context.Context, cand Candidate, candidateConn 
 		if !cand.filterForLocationTracking() {
 			a.candidateNotifier.EnqueueCandidate(cand)
 		}
-	})
+	}); err != nil {
+		return err
+	}
+
+	return addErr
 }
 
 func (a *Agent) setCandidateExtensions(cand Candidate) {
